@@ -180,8 +180,8 @@ func (e *Eval) instr(fr *Frame, in ssa.Instruction, st *State, cur string) (stri
 	case *ssa.MakeInterface:
 		v := e.val(fr, x.X)
 		if v.T == "" {
-			c.Unsupported("MakeInterface of structured pointer in %s", fr.fn)
-			fr.vals[x] = e.havocVal(fr.prefix+x.Name(), x.Type(), cur)
+			// an interior pointer boxed into an interface (logging, pools): opaque
+			fr.vals[x] = Val{T: c.Define(fr.prefix+x.Name(), "Iface", fmt.Sprintf("(mk-iface %s %s)", c.TypeTag(x.X.Type()), c.Fresh(fr.prefix+x.Name()+":ptr", "Int")))}
 			break
 		}
 		fr.vals[x] = Val{T: c.Define(fr.prefix+x.Name(), "Iface", fmt.Sprintf("(mk-iface %s %s)", c.TypeTag(x.X.Type()), c.Box(x.X.Type(), v.T)))}
@@ -627,7 +627,22 @@ func (e *Eval) tableUpdate(st *State, u *types.Map, m, k, newv string, pre *Stat
 	}
 	c.Set(st, "$owed", o)
 }
-func (e *Eval) allocOb(fr *Frame, in ssa.Instruction, cur, n string, elem types.Type)              {}
+func (e *Eval) allocOb(fr *Frame, in ssa.Instruction, cur, n string, elem types.Type) {
+	if e.rootC == nil || e.rootC.AllocBound == nil {
+		return
+	}
+	cl := e.rootC.AllocBound
+	ex, err := cl.Parse()
+	if err != nil {
+		e.c.Unsupported("%v", err)
+		return
+	}
+	env := e.newEnv(e.rootPkg, e.curSt, e.entry)
+	e.bindParams(env, e.root)
+	e.bindCells(env, e.root)
+	b := env.coerce(env.eval(ex), types.Typ[types.Int])
+	e.oblige("alloc#"+e.site("make@"+shortFn(fr.fn))+"/bounded", "alloc", cl.Props, cur, "(bvsle "+n+" "+b.T+")", "allocation size <= "+cl.Text, cl.Where)
+}
 
 func (e *Eval) implPred(iface types.Type, tag string) string {
 	name := "impl." + sanitize(typeKey(iface))
